@@ -16,7 +16,7 @@
                         to move at least one byte -- reaches that state. *)
 From Coq Require Import List NArith.
 From Muscle Require Import Gen.Consts Gw.GwBase Gw.TransportProofs
-  Gw.FrameModel Gw.FrameProofs Gw.FrameDefault Gw.ZlibModel Gw.ZlibProofs
+  Gw.FrameModel Gw.FrameProofs Gw.FrameDefault Gw.ZlibModel Gw.ZlibProofs Gw.TmplModel Gw.TmplProofs
   Gw.TextModel Gw.TextProofs Gw.RawModel Gw.RawProofs Gw.SlipModel Gw.SlipProofs.
 Import ListNotations.
 Local Open Scope N_scope.
@@ -64,21 +64,21 @@ Print Assumptions C03_binary_feed_split.
 (* the same three theorems for ANY codec pair satisfying the premise codec_sync (this is what the
    zlib encodings instantiate: the premise then speaks about deflate/inflate) *)
 Theorem C03_binary_codec_prefix_safety :
-  forall (CS CR : Type) (flat : CS -> bytes -> CS * bytes) (unflat : CR -> bytes -> CR * option bytes)
-         (max_in : N) (cs0 : CS) (cr0 : CR),
+  forall (Msg CS CR : Type) (flat : CS -> Msg -> CS * bytes) (unflat : CR -> bytes -> CR * option Msg)
+         (body_size : bytes -> option N) (max_in : N) (cs0 : CS) (cr0 : CR),
   (forall c m, f_hs <= blen (snd (flat c m))) ->
-  forall (sync : CS -> CR -> Prop) (wfb : bytes -> Prop),
+  forall (sync : CS -> CR -> Prop) (wfb : Msg -> Prop),
   sync cs0 cr0 ->
   (forall cs cr m, sync cs cr -> wfb m ->
-     exists payload enc cr',
-       snd (flat cs m) = le32 (blen payload) ++ le32 enc ++ payload /\
-       c_MUSCLE_MESSAGE_ENCODING_DEFAULT <= enc <= c_MUSCLE_MESSAGE_ENCODING_END_MARKER - 1 /\
+     exists hdr payload cr',
+       snd (flat cs m) = hdr ++ payload /\ blen hdr = f_hs /\
+       body_size hdr = Some (blen payload) /\
        blen payload <= max_in /\ f_hs + blen payload < two32 /\
        unflat cr (snd (flat cs m)) = (cr', Some m) /\ sync (fst (flat cs m)) cr') ->
-  forall evs : list (event bytes),
+  forall evs : list (event Msg),
   Forall (ev_wf wfb) evs ->
   exists tl, ev_msgs evs =
-             s_dlv (sys_run fs_queue (f_do_output CS flat) (f_do_input CR unflat max_in) (f_sys0 CS CR cs0 cr0) evs) ++ tl.
+             s_dlv (sys_run fs_queue (f_do_output Msg CS flat) (f_do_input Msg CR unflat body_size max_in) (f_sys0 Msg CS CR cs0 cr0) evs) ++ tl.
 Proof. exact frame_prefix_safety. Qed.
 Print Assumptions C03_binary_codec_prefix_safety.
 
@@ -145,6 +145,90 @@ Theorem C03_zlib_fair_completion :
   quiet (z_rem DS ds_init deflate oenc indep) st /\ s_dlv st = ev_msgs evs.
 Proof. exact z_fair_completion. Qed.
 Print Assumptions C03_zlib_fair_completion.
+
+(* ====================================================================== templating gateway (DEFAULT
+   encoding).  PREMISES (Message-level functions are external here): what-only Messages are determined
+   by their what-code; Flatten/Unflatten round-trips; TemplatedFlatten/TemplatedUnflatten round-trips
+   against any template that DESCRIBES the Message (same fields, types, item counts); the hash of a
+   template is the hash of its Message; bodies stay below 2^31 bytes (the top bit of both header words
+   is a flag).  NO injectivity of TemplateHashCode64 is assumed: the model follows the repaired gateway,
+   which checks the cached template against the Message (finding: C03_templating_collision_refuted
+   shows what trusting the hash does).  Modelled and proved: the wire forms,
+   the flag bits, and that the two LRU caches stay EQUAL (entries, order, byte tally) so that every
+   payload-only Message finds its template on the other side. *)
+Theorem C03_templating_prefix_safety :
+  forall (MSG TPL : Type) (m_trivial : MSG -> bool) (m_what : MSG -> N) (m_of_what : N -> MSG)
+         (m_tid : MSG -> N) (m_tmpl : MSG -> TPL) (t_tid t_size : TPL -> N)
+         (m_flat : MSG -> bytes) (m_unflat : bytes -> option MSG)
+         (m_tflat : TPL -> MSG -> bytes) (m_tunflat : TPL -> bytes -> option MSG)
+         (t_describes : TPL -> MSG -> bool) (max_cache max_in : N) (wfm : MSG -> Prop),
+  (forall m, wfm m -> m_trivial m = true -> m = m_of_what (m_what m) /\ m_what m < two32) ->
+  (forall m, wfm m -> m_trivial m = false -> m_unflat (m_flat m) = Some m /\ blen (m_flat m) <> 4) ->
+  (forall m t, wfm m -> m_trivial m = false -> t_describes t m = true -> m_tunflat t (m_tflat t m) = Some m) ->
+  (forall m, wfm m -> t_tid (m_tmpl m) = m_tid m /\ m_tid m < two64) ->
+  (forall m t, wfm m -> blen (m_flat m) < flag_bit /\ blen (m_flat m) <= max_in /\
+                        8 + blen (m_tflat t m) < flag_bit /\ 8 + blen (m_tflat t m) <= max_in) ->
+  4 <= max_in ->
+  forall evs : list (event MSG),
+  Forall (ev_wf wfm) evs ->
+  exists tl, ev_msgs evs = s_dlv (sys_run fs_queue (tm_do_output MSG TPL m_trivial m_what m_of_what m_tid m_tmpl t_size m_flat m_tflat t_describes max_cache)
+                      (tm_do_input MSG TPL m_of_what m_tmpl t_tid t_size m_unflat m_tunflat max_cache max_in) (tm_sys0 MSG TPL) evs) ++ tl.
+Proof. exact tm_prefix_safety. Qed.
+Print Assumptions C03_templating_prefix_safety.
+
+Theorem C03_templating_completeness :
+  forall (MSG TPL : Type) (m_trivial : MSG -> bool) (m_what : MSG -> N) (m_of_what : N -> MSG)
+         (m_tid : MSG -> N) (m_tmpl : MSG -> TPL) (t_tid t_size : TPL -> N)
+         (m_flat : MSG -> bytes) (m_unflat : bytes -> option MSG)
+         (m_tflat : TPL -> MSG -> bytes) (m_tunflat : TPL -> bytes -> option MSG)
+         (t_describes : TPL -> MSG -> bool) (max_cache max_in : N) (wfm : MSG -> Prop),
+  (forall m, wfm m -> m_trivial m = true -> m = m_of_what (m_what m) /\ m_what m < two32) ->
+  (forall m, wfm m -> m_trivial m = false -> m_unflat (m_flat m) = Some m /\ blen (m_flat m) <> 4) ->
+  (forall m t, wfm m -> m_trivial m = false -> t_describes t m = true -> m_tunflat t (m_tflat t m) = Some m) ->
+  (forall m, wfm m -> t_tid (m_tmpl m) = m_tid m /\ m_tid m < two64) ->
+  (forall m t, wfm m -> blen (m_flat m) < flag_bit /\ blen (m_flat m) <= max_in /\
+                        8 + blen (m_tflat t m) < flag_bit /\ 8 + blen (m_tflat t m) <= max_in) ->
+  4 <= max_in ->
+  forall evs : list (event MSG),
+  Forall (ev_wf wfm) evs ->
+  tm_rem MSG TPL m_trivial m_what m_of_what m_tid m_tmpl t_size m_flat m_tflat t_describes max_cache (s_snd (sys_run fs_queue (tm_do_output MSG TPL m_trivial m_what m_of_what m_tid m_tmpl t_size m_flat m_tflat t_describes max_cache)
+                      (tm_do_input MSG TPL m_of_what m_tmpl t_tid t_size m_unflat m_tunflat max_cache max_in) (tm_sys0 MSG TPL) evs)) = [] ->
+  s_pipe (sys_run fs_queue (tm_do_output MSG TPL m_trivial m_what m_of_what m_tid m_tmpl t_size m_flat m_tflat t_describes max_cache)
+                      (tm_do_input MSG TPL m_of_what m_tmpl t_tid t_size m_unflat m_tunflat max_cache max_in) (tm_sys0 MSG TPL) evs) = [] ->
+  s_dlv (sys_run fs_queue (tm_do_output MSG TPL m_trivial m_what m_of_what m_tid m_tmpl t_size m_flat m_tflat t_describes max_cache)
+                      (tm_do_input MSG TPL m_of_what m_tmpl t_tid t_size m_unflat m_tunflat max_cache max_in) (tm_sys0 MSG TPL) evs) = ev_msgs evs.
+Proof. exact tm_completeness. Qed.
+Print Assumptions C03_templating_completeness.
+
+Theorem C03_templating_fair_completion :
+  forall (MSG TPL : Type) (m_trivial : MSG -> bool) (m_what : MSG -> N) (m_of_what : N -> MSG)
+         (m_tid : MSG -> N) (m_tmpl : MSG -> TPL) (t_tid t_size : TPL -> N)
+         (m_flat : MSG -> bytes) (m_unflat : bytes -> option MSG)
+         (m_tflat : TPL -> MSG -> bytes) (m_tunflat : TPL -> bytes -> option MSG)
+         (t_describes : TPL -> MSG -> bool) (max_cache max_in : N) (wfm : MSG -> Prop),
+  (forall m, wfm m -> m_trivial m = true -> m = m_of_what (m_what m) /\ m_what m < two32) ->
+  (forall m, wfm m -> m_trivial m = false -> m_unflat (m_flat m) = Some m /\ blen (m_flat m) <> 4) ->
+  (forall m t, wfm m -> m_trivial m = false -> t_describes t m = true -> m_tunflat t (m_tflat t m) = Some m) ->
+  (forall m, wfm m -> t_tid (m_tmpl m) = m_tid m /\ m_tid m < two64) ->
+  (forall m t, wfm m -> blen (m_flat m) < flag_bit /\ blen (m_flat m) <= max_in /\
+                        8 + blen (m_tflat t m) < flag_bit /\ 8 + blen (m_tflat t m) <= max_in) ->
+  4 <= max_in ->
+  forall (evs : list (event MSG)) (rs : list (list (event MSG))),
+  Forall (ev_wf wfm) evs -> Forall round rs ->
+  (measure (tm_rem MSG TPL m_trivial m_what m_of_what m_tid m_tmpl t_size m_flat m_tflat t_describes max_cache) (fun _ => 0%nat) (sys_run fs_queue (tm_do_output MSG TPL m_trivial m_what m_of_what m_tid m_tmpl t_size m_flat m_tflat t_describes max_cache)
+                      (tm_do_input MSG TPL m_of_what m_tmpl t_tid t_size m_unflat m_tunflat max_cache max_in) (tm_sys0 MSG TPL) evs) <= length rs)%nat ->
+  let st := (sys_run fs_queue (tm_do_output MSG TPL m_trivial m_what m_of_what m_tid m_tmpl t_size m_flat m_tflat t_describes max_cache)
+                      (tm_do_input MSG TPL m_of_what m_tmpl t_tid t_size m_unflat m_tunflat max_cache max_in) (tm_sys0 MSG TPL) (evs ++ concat rs)) in
+  quiet (tm_rem MSG TPL m_trivial m_what m_of_what m_tid m_tmpl t_size m_flat m_tflat t_describes max_cache) st /\ s_dlv st = ev_msgs evs.
+Proof. exact tm_fair_completion. Qed.
+Print Assumptions C03_templating_fair_completion.
+
+Theorem C03_templating_collision_refuted :
+  ev_msgs ToyCollide.evs = [ToyCollide.A; ToyCollide.B] /\
+  s_dlv (ToyCollide.run (fun _ _ => true)) = [ToyCollide.A; (1, [5; 0; 0])] /\
+  s_dlv (ToyCollide.run Toy.t_describes) = [ToyCollide.A; ToyCollide.B].
+Proof. exact ToyCollide.tm_collision_refuted. Qed.
+Print Assumptions C03_templating_collision_refuted.
 
 (* ====================================================================== plain text gateway;
    Messages = lists of lines; lines free of CR, LF, NUL (empty lines allowed); terminator CRLF,
@@ -342,4 +426,33 @@ Proof.
   - split.
     + repeat constructor; unfold z_wfb, ex_deflate; cbn [snd]; vm_compute; repeat split; try discriminate; reflexivity.
     + vm_compute. auto.
+Qed.
+
+(* the templating premises are satisfiable (toy Message type of TmplProofs.Toy), and a run under
+   them in which the same template is created once and then used payload-only, mixed with a
+   what-only Message and a second template *)
+Definition ex_t_evs : list (event Toy.MSG) :=
+  [EQueue (5, [1; 2]); EQueue (6, []); EQueue (7, [3; 4]); EOut ex_big [9; 20]; EIn ex_big [3; 1];
+   EQueue (8, [5]); EQueue (9, [6; 7]);
+   EOut ex_big [ex_big; ex_big; ex_big; ex_big; ex_big];
+   EIn ex_big [ex_big; ex_big; ex_big; ex_big; ex_big; ex_big; ex_big; ex_big; ex_big; ex_big; ex_big; ex_big]].
+
+Example C03_templating_nonvacuous :
+  (forall m, Toy.wfm m -> Toy.m_trivial m = true -> m = Toy.m_of_what (Toy.m_what m) /\ Toy.m_what m < two32) /\
+  (forall m, Toy.wfm m -> Toy.m_trivial m = false -> Toy.m_unflat (Toy.m_flat m) = Some m /\ blen (Toy.m_flat m) <> 4) /\
+  (forall m t, Toy.wfm m -> Toy.m_trivial m = false -> Toy.t_describes t m = true -> Toy.m_tunflat t (Toy.m_tflat t m) = Some m) /\
+  (forall m, Toy.wfm m -> Toy.t_tid (Toy.m_tmpl m) = Toy.m_tid m /\ Toy.m_tid m < two64) /\
+  (forall m t, Toy.wfm m -> blen (Toy.m_flat m) < flag_bit /\ blen (Toy.m_flat m) <= ex_big /\
+                            8 + blen (Toy.m_tflat t m) < flag_bit /\ 8 + blen (Toy.m_tflat t m) <= ex_big) /\
+  Forall (ev_wf Toy.wfm) ex_t_evs /\
+  let st := sys_run fs_queue (tm_do_output Toy.MSG Toy.TPL Toy.m_trivial Toy.m_what Toy.m_of_what Toy.m_tid Toy.m_tmpl Toy.t_size Toy.m_flat Toy.m_tflat Toy.t_describes 30)
+              (tm_do_input Toy.MSG Toy.TPL Toy.m_of_what Toy.m_tmpl Toy.t_tid Toy.t_size Toy.m_unflat Toy.m_tunflat 30 ex_big)
+              (tm_sys0 Toy.MSG Toy.TPL) ex_t_evs in
+  s_pipe st = [] /\ s_dlv st = [(5, [1; 2]); (6, []); (7, [3; 4]); (8, [5]); (9, [6; 7])] /\
+  fs_cs (s_snd st) = fr_cr (s_rcv st) /\ fst (fs_cs (s_snd st)) = [(3, 2%nat); (2, 1%nat)].
+Proof.
+  split; [exact Toy.H_trivial|]. split; [exact Toy.H_full|]. split; [exact Toy.H_templated|].
+  split; [exact Toy.H_tid|]. split; [exact Toy.H_size|]. split.
+  - repeat constructor; vm_compute; reflexivity.
+  - vm_compute. auto.
 Qed.
